@@ -15,7 +15,9 @@ Decided from the source against ref/preprocessing_ref.py with rigid sizes N
             with_trace=False sets scale_ = 1;
  Shape      K_fit_rows_ (N,) is subtracted along the training axis of a (V, N)
             kernel, row means are (V, 1): no N/V conflict;
- R-SELF     fit_transform = fit then transform; fit copies its input.
+ R-SELF     fit_transform = fit then transform, on a fresh estimator and on one used
+            before with the other setting of with_center / with_trace; fit copies
+            its input.
 Not decided: equality with explicit feature-space centring numerically.
 """
 from .. import protocols
